@@ -1,14 +1,13 @@
 """C15 worker: builds operator expressions from a JSON description with the REAL classes, applies them,
 and builds — independently, with plain NumPy — the dense matrix each expression denotes.
 Also the conversion utilities.  Runs on the scratch build of /repo."""
-import copy
 import warnings
 
 import numpy as np
 from scipy import sparse
 
 from sknetwork.linalg import SparseLR, Regularizer, Normalizer, Laplacian, CoNeighbor, Polynome, normalize
-from sknetwork.linalg.normalizer import get_norms, diagonal_pseudo_inverse
+from sknetwork.linalg.normalizer import get_norms
 from sknetwork.linalg.laplacian import get_laplacian
 from sknetwork.utils.membership import get_membership, from_membership
 from sknetwork.utils.neighbors import get_neighbors, get_degrees, get_weights
@@ -283,10 +282,6 @@ def expr(a):
 # ------------------------------------------------------------------------------------------------
 # utilities
 # ------------------------------------------------------------------------------------------------
-def _sp(m):
-    return {'shape': list(m.shape), 'coo': csr_triples(sparse.csr_matrix(m).astype(float))}
-
-
 def util(a):
     kind = a['kind']
     if kind == 'normalize':
@@ -348,7 +343,7 @@ def util(a):
 
 def topk_oracles(a):
     """the answers NumPy gives to the two calls top_k makes (fed to the model as oracles)"""
-    s = np.array(a['scores'], dtype=float)
+    s = np.array(a['scores'], dtype=float) if a.get('as_array', True) else np.array(a['scores'])
     k = a['k']
     n = len(s)
     if k >= n:
